@@ -313,3 +313,5 @@ META = {
     'technique': 'CFG must-pass-through (one-shot key), statement-order rule in the OMEN loop, writer/reader field table, '
                  'who-may-write rule',
 }
+
+META['explanation'] += ' ' + 'Further: the OMEN model is read-only while generating and none of its lists is ordered by a set (saved positions are indexes into them); call sites of omen_generate_guesses are followed by a quit test.'
